@@ -94,8 +94,11 @@ def gen_case(rng, idx, tier):
     runs = sorted(rng.sample(range(2, T - 1), 2)) if rng.random() < 0.5 else []
     # the job continues a long simulation: its first step is large (beyond 2^31 for some), the schedules count absolute steps
     start = rng.choice([0, 0, 0, 1000003, 2147483600, 6000000000])
+    # a state written in the middle of the run (restart file, `cv save`): the hills still waiting are tabulated at that moment,
+    # once; the run goes on
+    save_at = rng.randint(5, T - 10) if (grids and rng.random() < 0.5) else None
     return dict(idx=idx, vs=vs, hist=hist, T=T, grids=grids, hf=hf, gf=gf, wt=wt, dT=rng.choice([1000.0, 3000.0]),
-                hw=hw, W=W, keep=(grids and rng.random() < 0.3), runs=runs, start=start)
+                hw=hw, W=W, keep=(grids and rng.random() < 0.3), runs=runs, start=start, save_at=save_at)
 
 
 def config(case):
@@ -134,6 +137,8 @@ def scenario(case):
         if t in case["runs"]:
             s += "newrun\nstep\nmark repeat\n"
         s += ctl.pos_line(**kw) + "\nstep\n"
+        if case.get("save_at") == t:
+            s += "savestr\n"
     s += "savestr\n"
     return s
 
@@ -246,6 +251,7 @@ def check_case(c, case, ev, sp):
                 return False
         if m.step(t, x, not rep, e["rel"]):
             nhills += 1
+        saved_now = (case.get("save_at") is not None and not rep and t - case.get("start", 0) == case["save_at"])
         if case["grids"] and not m.in_grid(x):
             offgrid += 1
         if any(not h["tab"] for h in m.hills) and case["grids"]:
@@ -273,6 +279,10 @@ def check_case(c, case, ev, sp):
                             "step %d var %s: force %.17g, hill sum in [%.17g, %.17g]" % (t, m.vs[k].name, of, lo, hi), [sp],
                             payload={"config": config(case)})
                 return False
+        if saved_now:
+            for h in m.hills:
+                h["tab"] = True
+            c.bump("states_written_with_pending_hills" if pending_steps else "states_written_mid_run")
     # final state: number of hills kept / grid boundaries after expansion
     sv = [e for e in ev if e["ev"] == "savestr"]
     if sv:
